@@ -45,6 +45,10 @@ class ForceTorqueTrack(Sized, BuildWriteable):
             raise ValueError(
                 "application_point, force and torque must have the same shape"
             )
+        if len(application_point.shape) != 2 or application_point.shape[1] != 3:
+            raise ValueError(
+                "application_point, force and torque must be of shape (nFrames, 3)"
+            )
         self.label = label
         self.application_point = application_point
         self.force = force
